@@ -2153,7 +2153,7 @@ class SubspaceExpansion(Mixer):
                 # need to stack different parts of the wR leg
                 wR = LHeff.get_leg('wR')
                 stack = [theta.add_trivial_leg(1, 'wR', wR.qconj)]  # explicitly add the identity
-                proj = np.ones(wR.ind_len - (IdL is not None) - (IdR is not None), bool)
+                proj = np.ones(wR.ind_len, bool)
                 if IdL is not None:
                     proj[IdL] = False
                 if IdR is not None:
@@ -2184,18 +2184,19 @@ class SubspaceExpansion(Mixer):
                 # need to stack different parts of the wR leg
                 wL = RHeff.get_leg('wL')
                 stack = [theta.add_trivial_leg(1, 'wL', wL.qconj)]  # explicitly add the identity
-                proj = np.ones(wL.ind_len - (IdL is not None) - (IdR is not None), bool)
+                proj = np.ones(wL.ind_len, bool)
                 if IdL is not None:
                     proj[IdL] = False
                 if IdR is not None:
                     proj[IdR] = False
-                RHeff.iproject(proj, 'wR')
+                RHeff.iproject(proj, 'wL')
+                RHeff = RHeff * np.sqrt(self.amplitude)
                 stack.append(npc.tensordot(theta, RHeff, ['(p0.vR)', '(p1*.vL)']))
                 if explicit_plus_hc:
                     # apply (RHeff^dagger theta) = conj(dot(RHeff.T, theta.conj()))
                     th = npc.tensordot(theta.conj(), RHeff, ['(p0*.vR*)', '(p1.vL*)'])
-                    stack.append(th.itranspose(['vL*', 'wL', '(p1*.vL*)']).iconj())
-                theta_expand = npc.concatenate(stack, axis='wR')
+                    stack.append(th.itranspose(['vL*', 'wL', '(p1*.vL)']).iconj())
+                theta_expand = npc.concatenate(stack, axis='wL')
                 IdR = 0  # of the new, concatenated leg.
             theta_expand = theta_expand.combine_legs(['vL', 'wL'], qconj=+1)
             U, S, VH, err, _ = svd_theta(
